@@ -97,7 +97,9 @@ def check_case(case):
             vs.append(oc.violation(PROP, case, "value-is-objective", {"returned_value": value, "objective_at_point": f,
                                                                       "returned_point": point}))
     if case["refine"] or case.get("pre_refine"):
-        if case["refine"] and (not l or sol.numberOfLocalTrials <= 0):
+        # (a run that ended by the legitimate float collapse is not given a Solve() call by this oracle - Run.solve only asks for the
+        # results then - so no refinement was requested and none is expected)
+        if case["refine"] and not run.collapsed and (not l or sol.numberOfLocalTrials <= 0):
             vs.append(oc.violation(PROP, case, "refinement-ran", {"local_calls": len(l), "reported": sol.numberOfLocalTrials}))
     elif l or sol.numberOfLocalTrials != 0:
         vs.append(oc.violation(PROP, case, "refinement-ran", {"local_calls": len(l), "reported": sol.numberOfLocalTrials,
